@@ -2,19 +2,19 @@ package main
 
 import (
 	"fmt"
-	"strings"
 	"go/token"
 	"go/types"
+	"strings"
 
 	"golang.org/x/tools/go/ssa"
 )
 
 func init() {
 	register(&ruleSet{
-		id:         "C19",
-		title:      "match selects the first matching case, binds pattern names, yields its value",
-		run:        runC19,
-		decided:    "a `no match` verdict for a case is only issued after every alternative was tried (no `return false, nil` inside the alternatives loop); cases are tried in slice order and the first matching case returns before any later case is looked at; the no-match exit yields null; bindings are stored into a freshly pushed frame before the body is evaluated; the pattern table: literal -> subject.Equals(literal), identifier -> bind the subject, array -> tag and length test then element-wise recursion, anything else -> error; an expression body yields the body's value, a block body null." +
+		id:    "C19",
+		title: "match selects the first matching case, binds pattern names, yields its value",
+		run:   runC19,
+		decided: "a `no match` verdict for a case is only issued after every alternative was tried (no `return false, nil` inside the alternatives loop); cases are tried in slice order and the first matching case returns before any later case is looked at; the no-match exit yields null; bindings are stored into a freshly pushed frame before the body is evaluated; the pattern table: literal -> subject.Equals(literal), identifier -> bind the subject, array -> tag and length test then element-wise recursion, anything else -> error; an expression body yields the body's value, a block body null." +
 			" A successfully evaluated literal is always compared, by Value.Equals; the binding map returned with a match is made for the alternative that matched; a `{ … }` body reaches the evaluator as the block itself." +
 			" Every case is handed to the pattern matcher (no pre-filter on the evaluator's side).",
 		notDecided: "Compare semantics (C05); that bindings of a failed alternative are discarded is implied by the fresh map per alternative, which is checked, not the values bound.",
@@ -59,7 +59,7 @@ func rangeLoops(fn *ssa.Function, pred func(ssa.Value) bool) []rangeLoop {
 		if ph, isPhi := cmp.X.(*ssa.Phi); isPhi {
 			// a hand-written `for i := 0; i < len(X); i++` over a slice taken before the loop is the
 			// same iteration as `range X` (the slice header is read once in both)
-			if !isCountingPhi(ph) || !loopInvariant(lc.Call.Args[0], b) {
+			if !isCountingPhi(ph) || !loopInvariant(lc.Call.Args[0], b) || !indexesOnly(ph, lc.Call.Args[0]) {
 				continue
 			}
 			if _, isSlice := lc.Call.Args[0].Type().Underlying().(*types.Slice); !isSlice {
